@@ -1,5 +1,5 @@
 CONSTANTS EP = ${EP}  Models = {"alphaone", "bravotwo"}  Ask = {"alphaone", "bravotwo", "zuluniner"}
-          Kinds = {"ollama", "vllm"}  Routes = {"proxy", "ollama", "vllm", "anthropic"}  Ops = ${Ops}  MaxLen = ${MaxLen}
+          Kinds = {"ollama", "sglang"}  Routes = {"proxy", "ollama", "sglang", "anthropic"}  Ops = ${Ops}  MaxLen = ${MaxLen}
 SPECIFICATION Spec
 INVARIANT SimExport
 CONSTRAINT GenConstraint
